@@ -47,7 +47,28 @@ def w_C01_nonunit_reagent_template():
     return bad, "rebalance([%r]) -> solved=%s by %s, reaction %r: sides %s" % (rx, r["solved"], r.get("solved_by"), r["reaction"], "differ" if bad else "equal")
 
 
+def w_C05_unparsable_row_dropped():
+    rows = ["CCO>>CCO", "C(C>>CC", "CC>>CC"]
+    out = _balancer().rebalance(rows, output_dict=True)
+    got = [r["input_reaction"] for r in out]
+    bad = got == ["CCO>>CCO", "CC>>CC"]
+    return bad, "rebalance(%r) returned %d rows %r: the unparsable row is absent and the row after it moved up" % (rows, len(out), got)
+
+
+def w_C05_bad_separator_loses_batch():
+    import contextlib, io
+
+    rows = ["CCO>>CCO", "CC.CC", "CC>>CC"]
+    with contextlib.redirect_stderr(io.StringIO()):
+        out = _balancer().rebalance(rows, output_dict=True)
+        out2 = _balancer().rebalance(rows, output_dict=True, batch_size=1)
+    bad = len(out) == 0 and [r["input_reaction"] for r in out2] == ["CCO>>CCO", "CC>>CC"]
+    return bad, "rebalance(%r) returned %d rows (one batch) and %d rows with batch_size=1: can_parse raises on a string without exactly one '>>' and the whole batch is discarded" % (rows, len(out), len(out2))
+
+
 WITNESSES = {
+    "C05-unparsable-row-dropped": ("C05", w_C05_unparsable_row_dropped),
+    "C05-bad-separator-loses-batch": ("C05", w_C05_bad_separator_loses_batch),
     "C01-nonunit-reagent-template": ("C01", w_C01_nonunit_reagent_template),
 }
 
@@ -62,13 +83,24 @@ def run_one(fid):
     return {"id": fid, "property": pid, "reproduced": bool(rep), "what": what}
 
 
-def run_for(pid):
-    out = []
+_STARTED = {}
+
+
+def start_for(pid):
+    if pid in _STARTED:
+        return _STARTED[pid]
     procs = []
     env = dict(os.environ, PYTHONPATH=ROOT)
     for fid, (p, _fn) in WITNESSES.items():
         if p == pid:
             procs.append((fid, subprocess.Popen([sys.executable, "-m", "vf.witness", fid], stdout=subprocess.PIPE, stderr=subprocess.DEVNULL, env=env, cwd=ROOT)))
+    _STARTED[pid] = procs
+    return procs
+
+
+def run_for(pid):
+    out = []
+    procs = start_for(pid)
     for fid, pr in procs:
         so, _ = pr.communicate(timeout=1800)
         line = [l for l in so.decode().splitlines() if l.startswith("{")]
